@@ -1,1 +1,805 @@
-pub fn nothing(){}
+//! E1 — a small, fast, deterministic Solana execution environment for `marginfi::entry`.
+//!
+//! * accounts are marshalled in the exact BPF-loader (aligned) input format and handed to
+//!   `solana_program::entrypoint::deserialize`, so `AccountInfo::{realloc, assign}`, Anchor
+//!   `init`/`close`, duplicate-account aliasing and RefCell borrow conflicts behave as on chain;
+//! * CPI arrives at `SyscallStubs::sol_invoke_signed`, is privilege-checked like the runtime does
+//!   and dispatched to the SPL-Token / Token-2022 native processors or a small system program;
+//! * sysvars (clock, rent, epoch schedule), stack height, return data and the instructions sysvar
+//!   are provided from a thread-local context, so exploration can be multi-threaded;
+//! * a transaction is atomic: the store is committed only if every instruction succeeds.
+
+use solana_program::{
+    account_info::AccountInfo,
+    clock::Clock,
+    entrypoint::ProgramResult,
+    epoch_schedule::EpochSchedule,
+    instruction::{AccountMeta, Instruction},
+    program_error::ProgramError,
+    pubkey::Pubkey,
+    rent::Rent,
+    system_instruction::SystemInstruction,
+    system_program,
+    sysvar,
+};
+use std::cell::RefCell;
+use std::collections::{BTreeMap, BTreeSet};
+use std::sync::Arc;
+use std::sync::Once;
+
+pub const MAX_PERMITTED_DATA_INCREASE: usize = 10_240;
+pub const NON_DUP_MARKER: u8 = u8::MAX;
+
+/// Harness-level failure reasons that are not program verdicts. They are reported as error codes
+/// above the 32-bit custom range so they can never be confused with a program error.
+pub const ERR_PANIC: u64 = 0xFFFF_0001_0000_0000;
+pub const ERR_UNSUPPORTED_CPI: u64 = 0xFFFF_0002_0000_0000;
+pub const ERR_RUNTIME_READONLY_MODIFIED: u64 = 0xFFFF_0003_0000_0000;
+pub const ERR_RUNTIME_EXTERNAL_DATA_MODIFIED: u64 = 0xFFFF_0004_0000_0000;
+pub const ERR_RUNTIME_UNBALANCED: u64 = 0xFFFF_0005_0000_0000;
+pub const ERR_RUNTIME_PRIVILEGE: u64 = 0xFFFF_0006_0000_0000;
+pub const ERR_RUNTIME_MISSING_ACCOUNT: u64 = 0xFFFF_0007_0000_0000;
+pub const ERR_RUNTIME_EXECUTABLE_MODIFIED: u64 = 0xFFFF_0008_0000_0000;
+pub const ERR_MISSING_SIGNATURE_FOR_FEE: u64 = 0xFFFF_0009_0000_0000;
+
+#[derive(Clone, PartialEq, Eq, Debug, Default)]
+pub struct Acct {
+    pub lamports: u64,
+    pub data: Vec<u8>,
+    pub owner: Pubkey,
+    pub executable: bool,
+}
+
+impl Acct {
+    pub fn new(lamports: u64, data: Vec<u8>, owner: Pubkey) -> Self {
+        Acct { lamports, data, owner, executable: false }
+    }
+}
+
+/// A complete chain state as far as any model needs it: accounts + clock.
+#[derive(Clone, PartialEq, Eq, Debug)]
+pub struct Store {
+    pub accts: BTreeMap<Pubkey, Arc<Acct>>,
+    pub now: i64,
+    pub slot: u64,
+    pub epoch: u64,
+}
+
+impl Default for Store {
+    fn default() -> Self {
+        let mut s = Store { accts: BTreeMap::new(), now: 1_700_000_000, slot: 1_000, epoch: 0 };
+        // program accounts (executable), as any cluster has them
+        let native_loader = solana_program::pubkey!("NativeLoader1111111111111111111111111111111");
+        let bpf_loader = solana_program::bpf_loader::id();
+        let upgradeable = solana_program::bpf_loader_upgradeable::id();
+        for (k, owner) in [
+            (system_program::id(), native_loader),
+            (spl_token::id(), bpf_loader),
+            (spl_token_2022::id(), upgradeable),
+            (spl_associated_token_account::id(), bpf_loader),
+            (marginfi::ID, upgradeable),
+        ] {
+            s.set(k, Acct { lamports: 1, data: vec![], owner, executable: true });
+        }
+        s
+    }
+}
+
+impl Store {
+    pub fn get(&self, k: &Pubkey) -> Option<&Acct> {
+        self.accts.get(k).map(|a| a.as_ref())
+    }
+    pub fn set(&mut self, k: Pubkey, a: Acct) {
+        self.accts.insert(k, Arc::new(a));
+    }
+    pub fn get_mut(&mut self, k: &Pubkey) -> Option<&mut Acct> {
+        self.accts.get_mut(k).map(Arc::make_mut)
+    }
+    pub fn data(&self, k: &Pubkey) -> &[u8] {
+        &self.accts.get(k).unwrap_or_else(|| panic!("no account {k}")).data
+    }
+    pub fn advance(&mut self, dt: i64) {
+        self.now += dt;
+        // ~2 slots per second, always at least one slot per advance so that "this slot" style
+        // freshness checks (Kamino/Solend reserves) observe the passage of time.
+        self.slot += (dt.max(0) as u64) * 2 + 1;
+    }
+    pub fn clock(&self) -> Clock {
+        Clock {
+            slot: self.slot,
+            epoch_start_timestamp: 0,
+            epoch: self.epoch,
+            leader_schedule_epoch: self.epoch,
+            unix_timestamp: self.now,
+        }
+    }
+}
+
+#[derive(Clone, Debug, PartialEq, Eq)]
+pub struct Ix {
+    pub program_id: Pubkey,
+    pub accounts: Vec<AccountMeta>,
+    pub data: Vec<u8>,
+    /// If set, the instruction is modelled as being invoked by this (third-party) top-level program
+    /// through CPI: the instructions sysvar shows the proxy's instruction and the stack height is 2.
+    pub proxy: Option<Pubkey>,
+}
+
+impl Ix {
+    pub fn from(i: Instruction) -> Self {
+        Ix { program_id: i.program_id, accounts: i.accounts, data: i.data, proxy: None }
+    }
+    pub fn via(mut self, proxy: Pubkey) -> Self {
+        self.proxy = Some(proxy);
+        self
+    }
+}
+
+#[derive(Clone, Debug, PartialEq, Eq)]
+pub struct Tx {
+    pub ixs: Vec<Ix>,
+    pub signers: BTreeSet<Pubkey>,
+}
+
+impl Tx {
+    pub fn new(ixs: Vec<Ix>, signers: &[Pubkey]) -> Self {
+        Tx { ixs, signers: signers.iter().cloned().collect() }
+    }
+    pub fn one(ix: Ix, signers: &[Pubkey]) -> Self {
+        Self::new(vec![ix], signers)
+    }
+}
+
+#[derive(Clone, Debug, PartialEq, Eq)]
+pub struct TxResult {
+    /// None = committed; Some((index, code)) = first failing instruction and its error code
+    pub err: Option<(usize, u64)>,
+}
+
+impl TxResult {
+    pub fn ok(&self) -> bool {
+        self.err.is_none()
+    }
+    pub fn code(&self) -> u64 {
+        self.err.map(|e| e.1).unwrap_or(0)
+    }
+    /// Anchor/marginfi custom code (e.g. 6009), or 0 when ok, or the raw builtin code.
+    pub fn custom(&self) -> u32 {
+        match self.err {
+            None => 0,
+            Some((_, c)) if c < (1u64 << 32) => c as u32,
+            Some((_, c)) => (c >> 32) as u32 | 0x8000_0000,
+        }
+    }
+    pub fn is_machinery_failure(&self) -> bool {
+        matches!(self.err, Some((_, c)) if c == ERR_UNSUPPORTED_CPI)
+    }
+}
+
+pub fn err_name(code: u64) -> String {
+    match code {
+        0 => "ok".into(),
+        ERR_PANIC => "PANIC".into(),
+        ERR_UNSUPPORTED_CPI => "UNSUPPORTED_CPI".into(),
+        ERR_RUNTIME_READONLY_MODIFIED => "RT_READONLY_MODIFIED".into(),
+        ERR_RUNTIME_EXTERNAL_DATA_MODIFIED => "RT_EXTERNAL_DATA_MODIFIED".into(),
+        ERR_RUNTIME_UNBALANCED => "RT_UNBALANCED".into(),
+        ERR_RUNTIME_PRIVILEGE => "RT_PRIVILEGE_ESCALATION".into(),
+        ERR_RUNTIME_MISSING_ACCOUNT => "RT_MISSING_ACCOUNT".into(),
+        ERR_RUNTIME_EXECUTABLE_MODIFIED => "RT_EXECUTABLE_MODIFIED".into(),
+        c if c < (1u64 << 32) => format!("{}", c),
+        c => format!("builtin:{}", ProgramError::from(c)),
+    }
+}
+
+// ------------------------------------------------------------------------------------------------
+// thread-local execution context read by the syscall stubs
+
+struct Ctx {
+    clock: Clock,
+    stack_height: u64,
+    program_stack: Vec<Pubkey>,
+    return_data: Option<(Pubkey, Vec<u8>)>,
+    /// (callee program, keys passed writable) for every CPI of the current top-level instruction
+    cpi_writes: Vec<(Pubkey, Vec<Pubkey>)>,
+    unsupported_cpi: bool,
+    last_panic: Option<String>,
+}
+
+thread_local! {
+    static CTX: RefCell<Ctx> = RefCell::new(Ctx {
+        clock: Clock::default(),
+        stack_height: 1,
+        program_stack: Vec::new(),
+        return_data: None,
+        cpi_writes: Vec::new(),
+        unsupported_cpi: false,
+        last_panic: None,
+    });
+}
+
+pub fn last_panic() -> Option<String> {
+    CTX.with(|c| c.borrow().last_panic.clone())
+}
+
+struct Stubs;
+
+impl solana_program::program_stubs::SyscallStubs for Stubs {
+    fn sol_log(&self, _message: &str) {}
+    fn sol_log_compute_units(&self) {}
+    fn sol_remaining_compute_units(&self) -> u64 {
+        1_400_000
+    }
+    fn sol_invoke_signed(
+        &self,
+        instruction: &Instruction,
+        account_infos: &[AccountInfo],
+        signers_seeds: &[&[&[u8]]],
+    ) -> ProgramResult {
+        cpi(instruction, account_infos, signers_seeds)
+    }
+    fn sol_get_clock_sysvar(&self, var_addr: *mut u8) -> u64 {
+        CTX.with(|c| unsafe {
+            std::ptr::write_unaligned(var_addr as *mut Clock, c.borrow().clock.clone());
+        });
+        0
+    }
+    fn sol_get_epoch_schedule_sysvar(&self, var_addr: *mut u8) -> u64 {
+        unsafe { std::ptr::write_unaligned(var_addr as *mut EpochSchedule, EpochSchedule::default()) };
+        0
+    }
+    fn sol_get_rent_sysvar(&self, var_addr: *mut u8) -> u64 {
+        unsafe { std::ptr::write_unaligned(var_addr as *mut Rent, Rent::default()) };
+        0
+    }
+    fn sol_get_return_data(&self) -> Option<(Pubkey, Vec<u8>)> {
+        CTX.with(|c| c.borrow().return_data.clone())
+    }
+    fn sol_set_return_data(&self, data: &[u8]) {
+        CTX.with(|c| {
+            let mut c = c.borrow_mut();
+            let p = c.program_stack.last().cloned().unwrap_or_default();
+            c.return_data = Some((p, data.to_vec()));
+        })
+    }
+    fn sol_log_data(&self, _fields: &[&[u8]]) {}
+    fn sol_get_stack_height(&self) -> u64 {
+        CTX.with(|c| c.borrow().stack_height)
+    }
+}
+
+static INIT: Once = Once::new();
+
+/// Install the syscall stubs and a quiet panic hook. Idempotent.
+pub fn init() {
+    INIT.call_once(|| {
+        solana_program::program_stubs::set_syscall_stubs(Box::new(Stubs));
+        if std::env::var("VERIF_PROGRAM_LOG").is_ok() {
+            solana_msg::LOG_ENABLED.store(true, std::sync::atomic::Ordering::Relaxed);
+        }
+        let verbose = std::env::var("VERIF_PANIC_LOG").is_ok();
+        std::panic::set_hook(Box::new(move |info| {
+            let msg = format!("{}", info);
+            if verbose {
+                eprintln!("[program panic] {msg}");
+            }
+            let in_program = CTX.with(|c| {
+                if let Ok(mut c) = c.try_borrow_mut() {
+                    c.last_panic = Some(msg.clone());
+                    !c.program_stack.is_empty()
+                } else {
+                    true
+                }
+            });
+            if !in_program {
+                // a panic of the harness itself: always show it
+                eprintln!("[harness panic] {msg}");
+            }
+        }));
+    });
+}
+
+// ------------------------------------------------------------------------------------------------
+// CPI
+
+fn cpi(instruction: &Instruction, account_infos: &[AccountInfo], signers_seeds: &[&[&[u8]]]) -> ProgramResult {
+    let caller = CTX.with(|c| c.borrow().program_stack.last().cloned()).expect("cpi outside of a program");
+
+    // PDA signers are derived with the *caller's* program id
+    let mut pda_signers: Vec<Pubkey> = Vec::with_capacity(signers_seeds.len());
+    for seeds in signers_seeds {
+        let k = Pubkey::create_program_address(seeds, &caller).map_err(|_| ProgramError::InvalidSeeds)?;
+        pda_signers.push(k);
+    }
+
+    // privilege check + callee account infos in meta order
+    let mut callee_ais: Vec<AccountInfo> = Vec::with_capacity(instruction.accounts.len());
+    let mut writes: Vec<Pubkey> = Vec::new();
+    for meta in &instruction.accounts {
+        let ai = account_infos
+            .iter()
+            .find(|ai| *ai.key == meta.pubkey)
+            .ok_or(ProgramError::from(ERR_MISSING_ACCOUNT_PE))?;
+        if meta.is_writable && !ai.is_writable {
+            return Err(ProgramError::from(ERR_PRIVILEGE_PE));
+        }
+        if meta.is_signer && !(ai.is_signer || pda_signers.contains(&meta.pubkey)) {
+            return Err(ProgramError::from(ERR_PRIVILEGE_PE));
+        }
+        let mut c = ai.clone();
+        c.is_signer = meta.is_signer;
+        c.is_writable = meta.is_writable;
+        if meta.is_writable {
+            writes.push(meta.pubkey);
+        }
+        callee_ais.push(c);
+    }
+
+    let pid = instruction.program_id;
+    CTX.with(|c| {
+        let mut c = c.borrow_mut();
+        c.program_stack.push(pid);
+        c.stack_height += 1;
+        c.cpi_writes.push((pid, writes));
+    });
+    let res = if pid == spl_token::id() {
+        spl_token::processor::Processor::process(&pid, &callee_ais, &instruction.data)
+    } else if pid == spl_token_2022::id() {
+        spl_token_2022::processor::Processor::process(&pid, &callee_ais, &instruction.data)
+    } else if pid == system_program::id() {
+        system_process(&callee_ais, &instruction.data)
+    } else {
+        CTX.with(|c| c.borrow_mut().unsupported_cpi = true);
+        Err(ProgramError::from(ERR_UNSUPPORTED_PE))
+    };
+    CTX.with(|c| {
+        let mut c = c.borrow_mut();
+        c.program_stack.pop();
+        c.stack_height -= 1;
+    });
+    res
+}
+
+// builtin-style ProgramError encodings for the harness' own failure reasons (never produced by the
+// program itself): they travel through the program as ProgramError and are mapped back afterwards.
+const ERR_MISSING_ACCOUNT_PE: u64 = ERR_RUNTIME_MISSING_ACCOUNT;
+const ERR_PRIVILEGE_PE: u64 = ERR_RUNTIME_PRIVILEGE;
+const ERR_UNSUPPORTED_PE: u64 = ERR_UNSUPPORTED_CPI;
+
+const SYS_ACCOUNT_ALREADY_IN_USE: u32 = 0;
+const SYS_RESULT_WITH_NEGATIVE_LAMPORTS: u32 = 1;
+const SYS_INVALID_ACCOUNT_DATA_LENGTH: u32 = 3;
+const MAX_PERMITTED_DATA_LENGTH: u64 = 10 * 1024 * 1024;
+
+fn sys_transfer(from: &AccountInfo, to: &AccountInfo, lamports: u64) -> ProgramResult {
+    if !from.is_signer {
+        return Err(ProgramError::MissingRequiredSignature);
+    }
+    if !from.data_is_empty() {
+        return Err(ProgramError::InvalidArgument);
+    }
+    if *from.owner != system_program::id() {
+        // only the owner may debit; the runtime would reject with ExternalAccountLamportSpend
+        return Err(ProgramError::from(15u64 << 32));
+    }
+    if from.lamports() < lamports {
+        return Err(ProgramError::Custom(SYS_RESULT_WITH_NEGATIVE_LAMPORTS));
+    }
+    if from.key == to.key {
+        return Ok(());
+    }
+    **from.try_borrow_mut_lamports()? -= lamports;
+    **to.try_borrow_mut_lamports()? += lamports;
+    Ok(())
+}
+
+fn sys_allocate(acct: &AccountInfo, space: u64) -> ProgramResult {
+    if !acct.is_signer {
+        return Err(ProgramError::MissingRequiredSignature);
+    }
+    if !acct.data_is_empty() || *acct.owner != system_program::id() {
+        return Err(ProgramError::Custom(SYS_ACCOUNT_ALREADY_IN_USE));
+    }
+    if space > MAX_PERMITTED_DATA_LENGTH {
+        return Err(ProgramError::Custom(SYS_INVALID_ACCOUNT_DATA_LENGTH));
+    }
+    acct.realloc(space as usize, true)
+}
+
+fn sys_assign(acct: &AccountInfo, owner: &Pubkey) -> ProgramResult {
+    if acct.owner == owner {
+        return Ok(());
+    }
+    if !acct.is_signer {
+        return Err(ProgramError::MissingRequiredSignature);
+    }
+    if *acct.owner != system_program::id() {
+        return Err(ProgramError::from(ERR_RUNTIME_EXTERNAL_DATA_MODIFIED));
+    }
+    acct.assign(owner);
+    Ok(())
+}
+
+fn system_process(accounts: &[AccountInfo], data: &[u8]) -> ProgramResult {
+    let ix: SystemInstruction = bincode::deserialize(data).map_err(|_| ProgramError::InvalidInstructionData)?;
+    match ix {
+        SystemInstruction::CreateAccount { lamports, space, owner } => {
+            if accounts.len() < 2 {
+                return Err(ProgramError::NotEnoughAccountKeys);
+            }
+            let (from, to) = (&accounts[0], &accounts[1]);
+            if !to.is_signer {
+                return Err(ProgramError::MissingRequiredSignature);
+            }
+            if to.lamports() > 0 {
+                return Err(ProgramError::Custom(SYS_ACCOUNT_ALREADY_IN_USE));
+            }
+            sys_allocate(to, space)?;
+            sys_assign(to, &owner)?;
+            sys_transfer(from, to, lamports)
+        }
+        SystemInstruction::Transfer { lamports } => {
+            if accounts.len() < 2 {
+                return Err(ProgramError::NotEnoughAccountKeys);
+            }
+            sys_transfer(&accounts[0], &accounts[1], lamports)
+        }
+        SystemInstruction::Allocate { space } => {
+            if accounts.is_empty() {
+                return Err(ProgramError::NotEnoughAccountKeys);
+            }
+            sys_allocate(&accounts[0], space)
+        }
+        SystemInstruction::Assign { owner } => {
+            if accounts.is_empty() {
+                return Err(ProgramError::NotEnoughAccountKeys);
+            }
+            sys_assign(&accounts[0], &owner)
+        }
+        _ => {
+            CTX.with(|c| c.borrow_mut().unsupported_cpi = true);
+            Err(ProgramError::from(ERR_UNSUPPORTED_PE))
+        }
+    }
+}
+
+// ------------------------------------------------------------------------------------------------
+// marshalling
+
+fn is_reserved_readonly(k: &Pubkey) -> bool {
+    *k == system_program::id()
+        || *k == spl_token::id()
+        || *k == spl_token_2022::id()
+        || *k == spl_associated_token_account::id()
+        || *k == sysvar::instructions::id()
+        || *k == sysvar::clock::id()
+        || *k == sysvar::rent::id()
+        || *k == marginfi::ID
+}
+
+struct Marshalled {
+    buf: Vec<u64>,
+    /// (key, offset of the account record's first byte after the dup marker) for unique accounts
+    uniq: Vec<(Pubkey, usize)>,
+}
+
+fn empty_acct() -> Acct {
+    Acct { lamports: 0, data: Vec::new(), owner: system_program::id(), executable: false }
+}
+
+fn marshal(
+    work: &BTreeMap<Pubkey, Arc<Acct>>,
+    program_id: &Pubkey,
+    metas: &[(Pubkey, bool, bool)],
+    data: &[u8],
+) -> Marshalled {
+    // size
+    let mut size = 8usize;
+    let mut uniq: Vec<(Pubkey, usize)> = Vec::with_capacity(metas.len());
+    let mut first_index: Vec<Option<usize>> = Vec::with_capacity(metas.len());
+    for (i, (k, _, _)) in metas.iter().enumerate() {
+        let dup = metas[..i].iter().position(|(k2, _, _)| k2 == k);
+        first_index.push(dup);
+        if dup.is_some() {
+            size += 8;
+        } else {
+            let dl = work.get(k).map(|a| a.data.len()).unwrap_or(0);
+            size += 8 + 32 + 32 + 8 + 8 + dl + MAX_PERMITTED_DATA_INCREASE;
+            size = (size + 7) & !7;
+            size += 8;
+        }
+    }
+    size += 8 + data.len() + 32;
+    let mut buf = vec![0u64; (size + 7) / 8 + 1];
+    let base = buf.as_mut_ptr() as *mut u8;
+    let mut off = 0usize;
+    unsafe {
+        *(base.add(off) as *mut u64) = metas.len() as u64;
+        off += 8;
+        for (i, (k, is_signer, is_writable)) in metas.iter().enumerate() {
+            if let Some(d) = first_index[i] {
+                *base.add(off) = d as u8;
+                off += 8;
+                continue;
+            }
+            let tmp;
+            let a: &Acct = match work.get(k) {
+                Some(a) => a.as_ref(),
+                None => {
+                    tmp = empty_acct();
+                    &tmp
+                }
+            };
+            *base.add(off) = NON_DUP_MARKER;
+            uniq.push((*k, off + 1));
+            *base.add(off + 1) = *is_signer as u8;
+            *base.add(off + 2) = *is_writable as u8;
+            *base.add(off + 3) = a.executable as u8;
+            off += 8;
+            std::ptr::copy_nonoverlapping(k.as_ref().as_ptr(), base.add(off), 32);
+            off += 32;
+            std::ptr::copy_nonoverlapping(a.owner.as_ref().as_ptr(), base.add(off), 32);
+            off += 32;
+            *(base.add(off) as *mut u64) = a.lamports;
+            off += 8;
+            *(base.add(off) as *mut u64) = a.data.len() as u64;
+            off += 8;
+            std::ptr::copy_nonoverlapping(a.data.as_ptr(), base.add(off), a.data.len());
+            off += a.data.len() + MAX_PERMITTED_DATA_INCREASE;
+            off = (off + 7) & !7;
+            *(base.add(off) as *mut u64) = u64::MAX; // rent epoch
+            off += 8;
+        }
+        *(base.add(off) as *mut u64) = data.len() as u64;
+        off += 8;
+        std::ptr::copy_nonoverlapping(data.as_ptr(), base.add(off), data.len());
+        off += data.len();
+        std::ptr::copy_nonoverlapping(program_id.as_ref().as_ptr(), base.add(off), 32);
+    }
+    Marshalled { buf, uniq }
+}
+
+fn read_back(m: &Marshalled, k: &Pubkey, rec: usize, pre_executable: bool) -> Acct {
+    let base = m.buf.as_ptr() as *const u8;
+    let _ = k;
+    unsafe {
+        let mut off = rec + 7; // after flags + original len
+        off += 32;
+        let owner = Pubkey::new_from_array(*(base.add(off) as *const [u8; 32]));
+        off += 32;
+        let lamports = *(base.add(off) as *const u64);
+        off += 8;
+        let len = *(base.add(off) as *const u64) as usize;
+        off += 8;
+        let data = std::slice::from_raw_parts(base.add(off), len).to_vec();
+        Acct { lamports, data, owner, executable: pre_executable }
+    }
+}
+
+// ------------------------------------------------------------------------------------------------
+// transaction execution
+
+pub type Processor = for<'a, 'info> fn(&'a Pubkey, &'info [AccountInfo<'info>], &'a [u8]) -> ProgramResult;
+
+fn marginfi_entry<'info>(pid: &Pubkey, ais: &'info [AccountInfo<'info>], data: &[u8]) -> ProgramResult {
+    marginfi::entry(pid, ais, data)
+}
+
+pub fn is_executable_program(pid: &Pubkey) -> bool {
+    *pid == marginfi::ID || *pid == spl_token::id() || *pid == spl_token_2022::id() || *pid == system_program::id()
+}
+
+fn run_program(_pid: &Pubkey, m: &mut Marshalled) -> Result<(), u64> {
+    let base = m.buf.as_mut_ptr() as *mut u8;
+    let res = std::panic::catch_unwind(std::panic::AssertUnwindSafe(|| unsafe {
+        let (program_id, accounts, data) = solana_program::entrypoint::deserialize(base);
+        let accounts_static: &'static [AccountInfo<'static>] = std::mem::transmute(accounts.as_slice());
+        let r = if *program_id == marginfi::ID {
+            marginfi_entry(program_id, accounts_static, data)
+        } else if *program_id == spl_token::id() {
+            spl_token::processor::Processor::process(program_id, accounts_static, data)
+        } else if *program_id == spl_token_2022::id() {
+            spl_token_2022::processor::Processor::process(program_id, accounts_static, data)
+        } else {
+            system_process(accounts_static, data)
+        };
+        drop(accounts);
+        r
+    }));
+    match res {
+        Ok(Ok(())) => Ok(()),
+        Ok(Err(e)) => Err(u64::from(e)),
+        Err(_) => Err(ERR_PANIC),
+    }
+}
+
+/// Execute one transaction atomically against `store`.
+pub fn process_tx(store: &mut Store, tx: &Tx) -> TxResult {
+    init();
+    let mut work = store.accts.clone();
+
+    // message-level privileges
+    let mut writable: BTreeSet<Pubkey> = BTreeSet::new();
+    for ix in &tx.ixs {
+        for m in &ix.accounts {
+            if m.is_writable && !is_reserved_readonly(&m.pubkey) {
+                writable.insert(m.pubkey);
+            }
+        }
+    }
+    for ix in &tx.ixs {
+        writable.remove(&ix.program_id);
+        if let Some(p) = &ix.proxy {
+            writable.remove(p);
+        }
+    }
+    // a signature is required for every account any instruction marks as signer
+    for (i, ix) in tx.ixs.iter().enumerate() {
+        for m in &ix.accounts {
+            if m.is_signer && !tx.signers.contains(&m.pubkey) {
+                return TxResult { err: Some((i, ERR_MISSING_SIGNATURE_FOR_FEE)) };
+            }
+        }
+    }
+
+    // instructions sysvar
+    let sysvar_key = sysvar::instructions::id();
+    let uses_sysvar = tx.ixs.iter().any(|ix| ix.accounts.iter().any(|m| m.pubkey == sysvar_key));
+    let mut sysvar_data: Vec<u8> = Vec::new();
+    if uses_sysvar {
+        use solana_program::sysvar::instructions::{BorrowedAccountMeta, BorrowedInstruction};
+        let outer: Vec<(Pubkey, Vec<(Pubkey, bool, bool)>, Vec<u8>)> = tx
+            .ixs
+            .iter()
+            .map(|ix| {
+                let metas: Vec<(Pubkey, bool, bool)> = ix
+                    .accounts
+                    .iter()
+                    .map(|m| (m.pubkey, tx.signers.contains(&m.pubkey), writable.contains(&m.pubkey)))
+                    .collect();
+                match ix.proxy {
+                    None => (ix.program_id, metas, ix.data.clone()),
+                    Some(p) => {
+                        let mut ms = vec![(ix.program_id, false, false)];
+                        ms.extend(metas);
+                        (p, ms, vec![0xAA, 0xBB, 0xCC, 0xDD, 0x01, 0x02, 0x03, 0x04, 0x05])
+                    }
+                }
+            })
+            .collect();
+        let borrowed: Vec<BorrowedInstruction> = outer
+            .iter()
+            .map(|(p, ms, d)| BorrowedInstruction {
+                program_id: p,
+                accounts: ms
+                    .iter()
+                    .map(|(k, s, w)| BorrowedAccountMeta { pubkey: k, is_signer: *s, is_writable: *w })
+                    .collect(),
+                data: d,
+            })
+            .collect();
+        sysvar_data = solana_program::sysvar::instructions::construct_instructions_data(&borrowed);
+    }
+
+    let clock = store.clock();
+    for (i, ix) in tx.ixs.iter().enumerate() {
+        if !is_executable_program(&ix.program_id) {
+            // other top-level programs (compute budget, third-party swaps, venue refreshes) are
+            // no-ops for the account store; they matter only through the instructions sysvar.
+            continue;
+        }
+        if uses_sysvar {
+            solana_program::sysvar::instructions::store_current_index(&mut sysvar_data, i as u16);
+            work.insert(
+                sysvar_key,
+                Arc::new(Acct { lamports: 1, data: sysvar_data.clone(), owner: sysvar::id(), executable: false }),
+            );
+        }
+        let metas: Vec<(Pubkey, bool, bool)> = ix
+            .accounts
+            .iter()
+            .map(|m| (m.pubkey, tx.signers.contains(&m.pubkey), writable.contains(&m.pubkey)))
+            .collect();
+        let mut m = marshal(&work, &ix.program_id, &metas, &ix.data);
+        CTX.with(|c| {
+            let mut c = c.borrow_mut();
+            c.clock = clock.clone();
+            c.stack_height = if ix.proxy.is_some() { 2 } else { 1 };
+            c.program_stack.clear();
+            c.program_stack.push(ix.program_id);
+            c.return_data = None;
+            c.cpi_writes.clear();
+            c.unsupported_cpi = false;
+        });
+        let r = run_program(&ix.program_id, &mut m);
+        let (unsupported, cpi_writes) = CTX.with(|c| {
+            let mut c = c.borrow_mut();
+            c.program_stack.clear();
+            (c.unsupported_cpi, std::mem::take(&mut c.cpi_writes))
+        });
+        if unsupported {
+            return TxResult { err: Some((i, ERR_UNSUPPORTED_CPI)) };
+        }
+        if let Err(code) = r {
+            return TxResult { err: Some((i, code)) };
+        }
+        // runtime post-conditions + write back
+        let mut pre_sum: u128 = 0;
+        let mut post_sum: u128 = 0;
+        for (k, rec) in &m.uniq {
+            let pre_tmp;
+            let pre: &Acct = match work.get(k) {
+                Some(a) => a.as_ref(),
+                None => {
+                    pre_tmp = empty_acct();
+                    &pre_tmp
+                }
+            };
+            let post = read_back(&m, k, *rec, pre.executable);
+            pre_sum += pre.lamports as u128;
+            post_sum += post.lamports as u128;
+            if post == *pre {
+                continue;
+            }
+            if !writable.contains(k) {
+                return TxResult { err: Some((i, ERR_RUNTIME_READONLY_MODIFIED)) };
+            }
+            if pre.executable {
+                return TxResult { err: Some((i, ERR_RUNTIME_EXECUTABLE_MODIFIED)) };
+            }
+            if (post.data != pre.data || post.owner != pre.owner) && pre.owner != ix.program_id {
+                // only the owner may change data; allowed when a CPI into the owning program
+                // received the account writable
+                let ok = cpi_writes.iter().any(|(p, ks)| *p == pre.owner && ks.contains(k));
+                if !ok {
+                    return TxResult { err: Some((i, ERR_RUNTIME_EXTERNAL_DATA_MODIFIED)) };
+                }
+            }
+            if post.lamports < pre.lamports && pre.owner != ix.program_id {
+                let ok = cpi_writes.iter().any(|(p, ks)| *p == pre.owner && ks.contains(k));
+                if !ok {
+                    return TxResult { err: Some((i, ERR_RUNTIME_EXTERNAL_DATA_MODIFIED)) };
+                }
+            }
+            work.insert(*k, Arc::new(post));
+        }
+        if pre_sum != post_sum {
+            return TxResult { err: Some((i, ERR_RUNTIME_UNBALANCED)) };
+        }
+    }
+    work.remove(&sysvar_key);
+    // accounts with no lamports left are purged at the end of the transaction
+    let dead: Vec<Pubkey> = work.iter().filter(|(_, a)| a.lamports == 0).map(|(k, _)| *k).collect();
+    for k in dead {
+        work.remove(&k);
+    }
+    store.accts = work;
+    TxResult { err: None }
+}
+
+/// Execute on a clone; returns (result, post-state if committed).
+pub fn try_tx(store: &Store, tx: &Tx) -> (TxResult, Option<Store>) {
+    let mut s = store.clone();
+    let r = process_tx(&mut s, tx);
+    if r.ok() {
+        (r, Some(s))
+    } else {
+        (r, None)
+    }
+}
+
+/// Run a closure with the syscall context set up as for a top-level marginfi instruction at the
+/// store's clock — for direct calls of pure public functions that read `Clock::get()`.
+pub fn with_clock<T>(clock: Clock, f: impl FnOnce() -> T) -> T {
+    init();
+    CTX.with(|c| {
+        let mut c = c.borrow_mut();
+        c.clock = clock;
+        c.stack_height = 1;
+        c.program_stack.clear();
+        c.program_stack.push(marginfi::ID);
+    });
+    let r = f();
+    CTX.with(|c| c.borrow_mut().program_stack.clear());
+    r
+}
